@@ -156,6 +156,9 @@ def lag_body(case):
     boundary = case["boundary"]
     fill = case["fill"]
     lead = case["lead"]  # bytes at the start of the content, e.g. b"\r", b"\n", b"ab\rcd", b""
+    # "@B" stands for the boundary text: lines that merely start like a delimiter (a nested
+    # multipart whose boundary extends the outer one) are ordinary content
+    lead = lead.replace(b"@B", boundary.encode("ascii"))
     content = lead + (b"A" * fill) + case.get("trail", b"")
     part = {"name": "big", "filename": "big.bin" if case["kind"] == "file" else None, "headers": [], "content": content}
     form = {"boundary": boundary, "charset": "utf-8", "preamble": None, "epilogue": None, "padding": b"", "parts": [part]}
@@ -313,7 +316,8 @@ def limits_case():
     return st.fixed_dictionaries({"form": gen.forms(max_parts=4, max_pieces=4), "cuts": gen.cut_lists(200)})
 
 
-LEADS = [b"", b"\r", b"\n", b"\r\n", b"ab\rcd", b"ab\ncd", b"\rx\n", b"\nx\r", b"\r\r", b"\n\n", b"--", b"\r\n-", b"\r-", b"\n--"]
+LEADS = [b"", b"\r", b"\n", b"\r\n", b"ab\rcd", b"ab\ncd", b"\rx\n", b"\nx\r", b"\r\r", b"\n\n", b"--", b"\r\n-", b"\r-", b"\n--",
+         b"\r\n--@B-inner\r\n", b"\r\n--@BX", b"x\n--@B.1\n", b"\r\n--@B-", b"\r\n--@Bx--\r\n"]
 
 
 def lag_grid():
@@ -333,8 +337,9 @@ def lag_case(draw):
     kind = draw(st.sampled_from(["file", "field"]))
     lead = draw(st.one_of(st.sampled_from(LEADS), st.binary(max_size=12)))
     boundary = draw(gen.boundaries())
-    while ("--" + boundary).encode("latin-1") in lead:
-        lead = lead.replace(b"-", b"")
+    if b"@B" not in lead:
+        while ("--" + boundary).encode("latin-1") in lead:
+            lead = lead.replace(b"-", b"")
     case = {
         "kind": kind,
         "lead": lead,
